@@ -651,6 +651,9 @@ Checks(r, st) ==
            LET dom == AsciiConsistent(TreeOf(r, st))
            IN (IF ~r.final
                  THEN {<<"C01", "chunks_have_text">>, <<"C01", "reassemble">>}
+                      \* ... and to what source() itself answered on this value
+                      \cup (IF <<r.r, "source">> \in DOMAIN st.obs
+                              THEN {<<"C01", "reassemble_observed_source">>} ELSE {})
                  ELSE {})
               \cup (IF dom /\ ~r.final THEN {<<"C02", "chunk_positions">>} ELSE {})
               \cup (IF dom THEN {<<"C02", "end_position">>} ELSE {})
@@ -766,6 +769,8 @@ Holds(c, r, st) ==
          \A i \in 1..Len(r.out.ev) :
            r.out.ev[i].t = "C" => r.out.ev[i].x # <<>>
     [] c = <<"C01", "reassemble">> -> Assembled(ChunksOf(r)) = TextOf(t)
+    [] c = <<"C01", "reassemble_observed_source">> ->
+         Assembled(ChunksOf(r)) = st.obs[<<r.r, "source">>].t
     [] c = <<"C02", "chunk_positions">> ->
          LET cs == ChunksOf(r)
              pt == PosTable(Assembled(cs))
